@@ -460,11 +460,11 @@ struct World {
       auto& H = hash[t];
       W.beginObj().kv("t", t + 1).kv("size", H._size).kv("nb", H._buckets_count);
       W.key("buckets").beginArr();          // non-empty buckets only: [index, [[id, key, home], ...]]
-      for (uint32_t i = 0; i < H._buckets_count; i++) {
+      size_t guard = 0, limit = H._size + 8;      // a corrupted (cyclic) chain is cut: the projection stays finite and is rejected
+      for (uint32_t i = 0; i < H._buckets_count && guard < limit; i++) {
         if (!H._data[i]) continue;
         W.beginArr().val((long long)i).beginArr();
-        size_t guard = 0;
-        for (ArenaHashNode* n = H._data[i]; n && guard < 1000000; n = n->_hash_next, guard++) {
+        for (ArenaHashNode* n = H._data[i]; n && guard < limit; n = n->_hash_next, guard++) {
           HNode* hn = static_cast<HNode*>(n);
           W.beginArr().val((long long)hn->id).val((long long)hn->key).val((long long)H._calc_mod(hn->_hash_code)).endArr();
         }
